@@ -2,3 +2,5 @@
 pub mod int;
 pub mod forms;
 pub mod rel;
+pub mod ecorder;
+pub mod smooth;
